@@ -1,5 +1,6 @@
 import asyncio
 import concurrent.futures
+import itertools
 import logging
 import multiprocessing
 import multiprocessing.queues
@@ -196,6 +197,11 @@ class Server:
         self._uid_to_futures = {}
         # Size of this dict is capped at `self._capacity`.
         # A few places need to enforce this size limit.
+        self._uid_counter = itertools.count()
+        # Request IDs. They must be unique among all requests that may still have
+        # messages travelling in the servlets; `id(future)` is not, because the
+        # address of a finished future can be handed out again while a slow ensemble
+        # member still works on the old request.
 
     def __getstate__(self):
         raise TypeError(f"cannot pickle '{self.__class__.__name__!r}' object")
@@ -308,7 +314,7 @@ class Server:
             't1': t0,  # end of enqueuing, to be updated
             'deadline': t0 + timeout,
         }
-        uid = id(fut)
+        uid = next(self._uid_counter)
 
         with self._pipeline_notfull:
             while len(pipeline) >= self._capacity:
@@ -494,6 +500,11 @@ class AsyncServer:
         self._uid_to_futures = {}
         # Size of this dict is capped at `self._capacity`.
         # A few places need to enforce this size limit.
+        self._uid_counter = itertools.count()
+        # Request IDs. They must be unique among all requests that may still have
+        # messages travelling in the servlets; `id(future)` is not, because the
+        # address of a finished future can be handed out again while a slow ensemble
+        # member still works on the old request.
 
     def __getstate__(self):
         raise TypeError(f"cannot pickle '{self.__class__.__name__!r}' object")
@@ -556,7 +567,7 @@ class AsyncServer:
             't1': t0,  # end of enqueuing; to be updated
             'deadline': t0 + timeout,
         }
-        uid = id(fut)
+        uid = next(self._uid_counter)
 
         async with self._pipeline_notfull:
             while len(pipeline) >= self._capacity:
